@@ -1,6 +1,6 @@
 # C13 — margin positions agree with pool totals and are liquidated only when unhealthy
 LEAN_MODULES = ["Sif.Props.C13"]
-EXTRACT = [{"group": "margin", "passes": ["marginkeys"]}]
+EXTRACT = [{"group": "margin", "passes": ["marginkeys", "marginparams"]}]
 FAMILIES = [
     {"name": "margin", "family": "margin", "group": "margin", "driver": "drv_margin",
      "n_quick": 60000, "n_thorough": 400000, "seeds_thorough": 5},
@@ -10,15 +10,16 @@ RULE = ("margin (L1, real SifchainApp, real margin+clp keepers and message serve
         "that is another symbol plus the start of a bech32 address, the only separator a denom may contain, case variants; `_` is not a "
         "valid denom character) of "
         "random depth (10^18..10^27 native, external/native ratio 10^-3..10^3) with random parameters (leverage max 1.5..10, safety factor "
-        "0.5..1.6, epoch length 1..7, fund percentages 0..1, incremental payment on/off, max open positions 3 or 10000): Open (both "
+        "0 (exactly), 10^-18, 0.5..1.6, epoch length 1..7, fund percentages 0..1, incremental payment on/off, max open positions 3 or 10000): Open (both "
         "collateral directions, amounts 0..3x pool depth, leverage 1..max+1, SHORT, unknown pool, both-native, both-non-native, same asset "
         "twice), Close (owner, outsider, unknown id), AdminClose/ForceClose (administrator and non-administrators, with/without fund cut), "
         "BeginBlocker every block (epoch boundaries with interest, liquidations), real clp Swap/AddLiquidity/RemoveLiquidity moving the "
         "price by up to 60% of depth, administrator parameter changes (including fund addresses set to a module account, safety factor "
         "100, either or both fund addresses left out of MsgUpdateParams = stored empty, fund percentages 0/0.1/0.5/1, all while positions "
-        "are open; the message is encoded, decoded, ValidateBasic'ed and sent through the message server), plus 8 directed histories per "
+        "are open; the message is encoded, decoded, ValidateBasic'ed and sent through the message server), plus 9 directed histories per "
         "run (the configurations of F14/F14b/F14c; all ten pools at once with positions on both sides of each, two epoch hooks, every "
-        "position closed; interest fund address empty: hook, mid-epoch Close, AdminClose; force-close fund address empty: AdminClose "
+        "position closed; safety factor exactly 0 with positions pushed below health 1.05 and 1 by a swap, then 10^-18, 1, 1.05, 100 at "
+        "successive epoch hooks; interest fund address empty: hook, mid-epoch Close, AdminClose; force-close fund address empty: AdminClose "
         "with/without fund cut, liquidation).  After every operation: full state dump compared "
         "with the model (pools: 13 fields, positions: 13 fields, counters, 7 accounts x 3 denoms) and MarginOK judged on the "
         "implementation's dump per pool with exact symbol matching, and the backing identity of C01 restricted to this world (c01.marginbacking: for every "
@@ -30,6 +31,7 @@ TRUSTED_BASE = [
     "Lean 4.33.0 kernel; axioms propext, Classical.choice, Quot.sound (audited per theorem on every run)",
     "hand-written Lean model of x/margin (keeper.go, msg_server.go, admin_msg_server.go, abci.go, calculations.go) and of the clp swap "
     "calculator it calls (lead's Sif.Model.Clp.Calc), tied to the Go code only by differential execution (state dumps after every operation)",
+    "fact translator extract/margin/params.go (a parameter getter is `field` only if its body is exactly `return k.GetParams(ctx).<Field>`)",
     "fact translator extract/margin/keys.go (syntactic classification of the key constructors of x/margin/types/keys.go and of "
     "Keeper.GetMTPsForPool; anything unrecognised becomes `unknown` and fails the obligation)",
     "Go harness (set-up, line protocol, the step-by-step replay of the hook loop used to observe per-position health) and the Lean driver's parser",
